@@ -260,6 +260,7 @@ inductive WEv where
   | ret (id n : Nat) (cls : String)  -- writeContext returned (n, err): ok | cancel (ctx error) | quit (io.EOF / ErrConnectionClosed) | err
   | fin                              -- end of the scenario: quit and socket closed, every held Write ended
   | stillWaiting (id : Nat)          -- at quiescence after `Q`: the caller is still parked in writeContext's first select
+  | arming                           -- `D` / `d`: the next SetWriteDeadline is made to fail / it failed (no byte is involved)
 
 def parseWEv (s : String) : Option WEv :=
   if s == "t" then some .tick
@@ -267,6 +268,7 @@ def parseWEv (s : String) : Option WEv :=
   else if s == "X" then some .sockClosed
   else if s == "g" then some .gone
   else if s == "z" then some .fin
+  else if s == "D" || s == "d" then some .arming
   else
     let body := (s.drop 1).toString
     match s.front with
@@ -341,6 +343,7 @@ def wstep (coal : Bool) (lens : Nat → Nat) (w : WSt) : WEv → WSt
       else w.reject "crash"
   | .fin => if w.started.all fun id => w.m.returned.contains id then w else w.reject "no-outcome"
   | .stillWaiting _ => w.reject "waiting-after-quit"
+  | .arming => w
 
 def lensOfWEvs (evs : List WEv) : List (Nat × Nat) :=
   evs.filterMap fun
@@ -362,6 +365,7 @@ def wtokActs (lens : Nat → Nat) (s : St) (tok : String) : Option (List Act) :=
   else if tok == "Q" then some [.shutQuit]
   else if tok == "X" then some [.shutdown]
   else if tok == "+g" then some [.flusherQuit]
+  else if tok == "D" || tok == "+d" then some []
   else if tok.startsWith "+q" then rest2.toNat?.map fun w => [.enqueue w]
   else if tok.startsWith "+a" then
     match nums rest2 with
@@ -377,11 +381,18 @@ def wtokActs (lens : Nat → Nat) (s : St) (tok : String) : Option (List Act) :=
         | .wrote k false, "err" => if k == n then some [.ret w] else none
         | .waiting, "cancel" => if n == 0 then some [.cancel w, .ret w] else none
         | .waiting, "quit" => if n == 0 then some [.quit w, .ret w] else none
+        -- SetWriteDeadline failed inside the critical section / at the head of `flush`: observably a Write that ends with
+        -- an error before byte 0 (the rest of the batch is failed with it)
+        | .waiting, "err" => if n == 0 then some [.enter w, .endWrite w false, .ret w] else none
+        | .queued, "err" => if n == 0 then some [.enter w, .endWrite w false, .ret w] else none
         | .queued, "quit" => if n == 0 then some [.quit w, .ret w] else none
         | _, _ => none
       | _, _ => none
     | _ => none
   else if tok.startsWith "s" then rest1.toNat?.map fun w => [.submit w]
+  -- `S<w>`: the caller's context has already ended when it reaches writeContext's first select: still one `submit`; what
+  -- the select then takes is observed (`+r<w>:0:cancel` = `cancel w`, or `+a` / `+q` = the semaphore / the hand-over won)
+  else if tok.startsWith "S" then rest1.toNat?.map fun w => [.submit w]
   else if tok.startsWith "c" then rest1.toNat?.map fun _ => []
   else if tok.startsWith "p" then
     match nums rest1 with
